@@ -157,3 +157,95 @@ def c07_run(a01: bool, a02: bool, a12: bool, d01: bool, d10: bool, d02: bool, d2
     if out_idx is not None and res != val(out_idx):
         return False
     return ok()
+
+
+# ----------------------------------------------------------------------------------------------- error reporting terminates
+from uberjob._util.traceback import StackFrame, TruncatedStackFrame, render_symbolic_traceback  # noqa: E402
+
+R_PATHS = ["/home/u/job.py", "/site-packages/IPython/core/interactiveshell.py", "<ipython-input-3-abc>", "/site-packages/uberjob/_plan.py"]
+
+
+class Budget(Exception):
+    pass
+
+
+class _Reads:
+    n = 0
+
+
+class BFrame(StackFrame):
+    """A StackFrame whose `path` / `outer` reads are counted: rendering a chain of n frames reads each a bounded number of times."""
+
+    __slots__ = ()
+
+    def _count(self):
+        _Reads.n += 1
+        if _Reads.n > 200:
+            raise Budget()
+
+    @property
+    def path(self):
+        self._count()
+        return StackFrame.path.__get__(self)
+
+    @path.setter
+    def path(self, v):
+        StackFrame.path.__set__(self, v)
+
+    @property
+    def outer(self):
+        self._count()
+        return StackFrame.outer.__get__(self)
+
+    @outer.setter
+    def outer(self, v):
+        StackFrame.outer.__set__(self, v)
+
+
+def c07_render(n: int, k0: int, k1: int, k2: int, trunc: bool, fail: bool) -> bool:
+    """
+    "run returns or raises in finite time ... for every failure pattern" includes the work done to REPORT a failure: the symbolic
+    traceback of the failed call is rendered from the recorded call-site frames.  Frames (innermost first) with paths from
+    R_PATHS (user file, IPython's own machinery, a notebook cell, uberjob itself), optionally ending in the truncation marker:
+    the real render_symbolic_traceback, and the real run of a plan whose failing call carries that chain, finish within a
+    fixed budget of frame reads (200 for <= 3 frames) -- a loop that stops advancing along the chain exceeds any budget.
+
+    pre: 1 <= n <= 3 and 0 <= k0 <= 3 and 0 <= k1 <= 3 and 0 <= k2 <= 3
+    post: _
+    """
+    begin()
+    kinds = [k0, k1, k2][:n]
+    chain = TruncatedStackFrame if trunc else None
+    for i in reversed(range(len(kinds))):
+        chain = BFrame(name=f"fn{i}", path=R_PATHS[kinds[i]], line=10 + i, outer=chain)
+    _Reads.n = 0
+    try:
+        text = render_symbolic_traceback(chain)
+    except Budget:
+        return False
+    if not text.startswith("Symbolic traceback"):
+        return False
+    w = W.World(W.NOW)
+    plan = uberjob.Plan()
+
+    def boom(*a):
+        if fail:
+            raise ValueError("boom")
+        return 1
+
+    a = plan.call(W.mk_fn(0, w))
+    b = plan.call(boom, a)
+    b.stack_frame = chain
+    _Reads.n = 0
+    try:
+        uberjob.run(plan, output=b, progress=None, max_workers=1)
+        raised = False
+    except Budget:
+        return False
+    except uberjob.CallError as e:
+        raised = True
+        if e.call is not b:
+            return False
+    if raised != fail:
+        return False
+    return ok()
